@@ -77,7 +77,9 @@ macro "fr_mvcgen" " [" args:(simpStar <|> simpErase <|> simpLemma),* "]" : tacti
       -IncrVerif.Proofs.maybeChangeValue_spec, -IncrVerif.Proofs.runEffects_spec, -IncrVerif.Proofs.recomputeOne_spec,
       -IncrVerif.Proofs.recompute_spec, -IncrVerif.Proofs.addNewObservers_spec, -IncrVerif.Proofs.unlinkDisallowedObservers_spec,
       -IncrVerif.Proofs.runAll_spec, -IncrVerif.Proofs.stabiliseEnd_spec, -IncrVerif.Proofs.drainHeap_spec,
-      -IncrVerif.Proofs.stabilise_spec, -IncrVerif.Proofs.setMaxHeightAllowed_spec])
+      -IncrVerif.Proofs.stabilise_spec, -IncrVerif.Proofs.setMaxHeightAllowed_spec,
+      -IncrVerif.Proofs.elabTemplateBase_spec, -IncrVerif.Proofs.memoCall_spec, -IncrVerif.Proofs.elabInstrM_spec,
+      -IncrVerif.Proofs.expertValue_spec, -IncrVerif.Proofs.withOldEvents_spec, -IncrVerif.Proofs.perKeyDriver_spec])
 
 /-- the frame in plain form: status, configuration and liveness after running `x`, value or panic -/
 theorem FPres.run {α} {x : M α} (h : ∀ t, FPres t x) (s : State) :
@@ -349,7 +351,18 @@ theorem unnecessary_fr (fuel : Nat) :
 @[spec high] theorem elabInstr_fr (loc : List Nat) (v : Val) (i : Instr) : FPres t (elabInstr loc v i) := by
   fr_mvcgen [elabInstr]
   fr_fin t
-@[spec high] theorem elabTemplate_fr (tp : Template) (v : Val) : FPres t (elabTemplate tp v) := by
+@[spec high] theorem elabTemplateBase_fr (tp : Template) (v : Val) (init : List Nat) :
+    FPres t (elabTemplateBase tp v init) := by
+  fr_mvcgen [elabTemplateBase]
+  fr_fin t
+@[spec high] theorem memoCall_fr (env : Env) (m : Nat) (key : Int) : FPres t (memoCall env m key) := by
+  fr_mvcgen [memoCall]
+  fr_fin t
+@[spec high] theorem elabInstrM_fr (env : Env) (loc : List Nat) (v : Val) (i : Instr) :
+    FPres t (elabInstrM env loc v i) := by
+  fr_mvcgen [elabInstrM]
+  fr_fin t
+@[spec high] theorem elabTemplate_fr (env : Env) (tp : Template) (v : Val) : FPres t (elabTemplate env tp v) := by
   fr_mvcgen [elabTemplate]
   fr_fin t
 @[spec high] theorem didSetVarWhileNotStabilising_fr (v : Nat) :
@@ -397,6 +410,22 @@ theorem unnecessary_fr (fuel : Nat) :
 @[spec high] theorem runEffects_fr (env : Env) (fuel : Nat) (effs : List Effect) (arg : Int) :
     FPres t (runEffects env fuel effs arg) := by
   fr_mvcgen [runEffects, -Spec.forIn_list, forIn_fr]
+
+@[spec high] theorem expertValue_fr (env : Env) (e : Nat) (dv sv : List (Option Val)) :
+    FPres t (expertValue env e dv sv) := by
+  fr_mvcgen [expertValue]
+  fr_fin t
+
+@[spec high] theorem withOldEvents_fr (env : Env) (g n : Nat) (σ : Val) (old : Option Val) (x new : Val)
+    (did : Bool) : FPres t (withOldEvents env g n σ old x new did) := by
+  fr_mvcgen [withOldEvents, -Spec.forIn_list, forIn_fr]
+  fr_fin t
+
+@[spec high] theorem perKeyDriver_fr (env : Env) (fuel op : Nat) (newMap : List (Int × Int)) :
+    FPres t (perKeyDriver env fuel op newMap) := by
+  fr_mvcgen [perKeyDriver, Functor.discard, -Spec.forIn_list, forIn_fr]
+  fr_fin t
+  all_goals exact expertAddDependency_fr _ _ _ _ _ _
 
 @[spec high] theorem recomputeOne_fr (env : Env) (fuel n : Nat) : FPres t (recomputeOne env fuel n) := by
   fr_mvcgen [recomputeOne]
@@ -462,12 +491,16 @@ def stabiliseEndPrepare (env : Env) : M (List (Nat × NodeUpdate)) := do
     queue := queue ++ [(n, (← get).nodeUpdate env n)]
   pure queue
 
-/-- the handler loop of `stabilise_end` (between the two status writes), verbatim -/
+/-- what `stabilise_end` does between the two status writes, verbatim: the handler loop, then the
+garbage collection of the weak memo tables (a pure state update, it cannot panic) -/
 def runHandlers (env : Env) (fuel : Nat) (queue : List (Nat × NodeUpdate)) : M Unit := do
   let now := (← get).stabNum
   for (n, nu) in queue do
     for o in (← getNode n).observers do
       runAll env fuel o n nu now
+  modify fun s =>
+    let alive := s.aliveSet
+    { s with memos := s.memos.map fun (m, tbl) => (m, tbl.filter fun (_, n) => alive.contains n) }
 
 theorem stabiliseEnd_phases (env : Env) (fuel : Nat) :
     stabiliseEnd env fuel = (do
@@ -661,6 +694,8 @@ inductive ApiCall where
   | unsubscribe (o token owner : Nat)
   | disallowFutureUse (o : Nat)
   | elabInstr (lhsVal : Val) (i : Instr)
+  /-- node creation including calls of memoised functions (what a top-level `create` runs) -/
+  | elabInstrM (env : Env) (lhsVal : Val) (i : Instr)
   | setMaxHeightAllowed (newMax : Nat)
 
 def ApiCall.run : ApiCall → M Unit
@@ -669,6 +704,7 @@ def ApiCall.run : ApiCall → M Unit
   | .unsubscribe o token owner => do let _ ← Engine.unsubscribe o token owner
   | .disallowFutureUse o => Engine.disallowFutureUse o
   | .elabInstr lhsVal i => do let _ ← Engine.elabInstr [] lhsVal i
+  | .elabInstrM env lhsVal i => do let _ ← Engine.elabInstrM env [] lhsVal i
   | .setMaxHeightAllowed newMax => Engine.setMaxHeightAllowed newMax
 
 /-- the state after the call, whether it returned or panicked (a caught panic leaves the state as it
@@ -815,6 +851,27 @@ theorem disallowFutureUse_vs (o : Nat) : VPres v x (disallowFutureUse o) := by
 theorem elabInstr_vs (loc : List Nat) (lv : Val) (i : Instr) : VPres v x (elabInstr loc lv i) := by
   fr_mvcgen [-elabInstr_fr, elabInstr]
   vs_fin v x
+theorem tick_vs : VPres v x tick := by
+  fr_mvcgen [-tick_fr, tick]
+theorem logEv_vs (e : Event) : VPres v x (logEv e) := by
+  fr_mvcgen [-logEv_fr, logEv]
+theorem elabTemplateBase_vs (tp : Template) (lv : Val) (init : List Nat) :
+    VPres v x (elabTemplateBase tp lv init) := by
+  have h := elabInstr_vs v x
+  fr_mvcgen [-elabTemplateBase_fr, -elabInstr_fr, elabTemplateBase, h]
+  vs_fin v x
+theorem memoCall_vs (env : Env) (m : Nat) (key : Int) : VPres v x (memoCall env m key) := by
+  have h1 := elabTemplateBase_vs v x
+  have h2 := tick_vs v x
+  have h3 := logEv_vs v x
+  fr_mvcgen [-memoCall_fr, -elabTemplateBase_fr, -tick_fr, -logEv_fr, memoCall, h1, h2, h3]
+  vs_fin v x
+theorem elabInstrM_vs (env : Env) (loc : List Nat) (lv : Val) (i : Instr) :
+    VPres v x (elabInstrM env loc lv i) := by
+  have h1 := elabInstr_vs v x
+  have h2 := memoCall_vs v x
+  fr_mvcgen [-elabInstrM_fr, -elabInstr_fr, -memoCall_fr, elabInstrM, h1, h2]
+  vs_fin v x
 theorem setMaxHeightAllowed_vs (newMax : Nat) : VPres v x (setMaxHeightAllowed newMax) := by
   fr_mvcgen [-setMaxHeightAllowed_fr, setMaxHeightAllowed]
   vs_fin v x
@@ -826,9 +883,10 @@ theorem ApiCall.run_vs (c : ApiCall) : VPres v x c.run := by
   have h4 := disallowFutureUse_vs v x
   have h5 := elabInstr_vs v x
   have h6 := setMaxHeightAllowed_vs v x
+  have h7 := elabInstrM_vs v x
   cases c <;>
     fr_mvcgen [ApiCall.run, -writeVar_fr, -subscribe_fr, -unsubscribe_fr, -disallowFutureUse_fr,
-      -elabInstr_fr, -setMaxHeightAllowed_fr, h1, h2, h3, h4, h5, h6]
+      -elabInstr_fr, -elabInstrM_fr, -setMaxHeightAllowed_fr, h1, h2, h3, h4, h5, h6, h7]
 
 end parked
 
@@ -988,7 +1046,8 @@ def exEnv : Env :=
   { fn := fun _ vs => vs.headD .unit, fnEff := fun f _ => if f = 1 then [.panic] else [],
     foldStep := fun _ a _ => a, proj := fun _ v => v, withOld := fun _ σ _ v => (σ, v, true),
     cutoff := fun _ _ _ => false, body := fun _ _ => { instrs := [], ret := .abs 0 },
-    handler := fun h _ => if h = 1 then [.panic] else [], expertFn := fun _ _ _ => .unit }
+    handler := fun h _ => if h = 1 then [.panic] else [], expertFn := fun _ _ _ => .unit, withOldCalls := fun _ _ _ _ => [],
+    memo := fun _ => { instrs := [], ret := .abs 0 }, perKey := fun _ => { instrs := [], ret := .abs 0 } }
 
 /-- a fresh graph before its first stabilisation: var 0 (node 0, value 1), node 1 = map `f` of node 0,
 a new observer 0 on node 1 with one subscription running handler `hid` -/
